@@ -203,12 +203,12 @@ PLAN["C01"] = {
         _c01_filter("filter_king_black_u2", 2, ("quick", "thorough"), 3600, 3),
         _c01_filter("filter_pawn_white_u2", 2, ("quick", "thorough"), 3600, 3),
         _c01_filter("filter_pawn_black_u2", 2, ("quick", "thorough"), 3600, 3),
-        _c01_filter("filter_pieces_white_u3", 3, ("thorough",), 7200, 16),
-        _c01_filter("filter_pieces_black_u3", 3, ("thorough",), 7200, 16),
-        _c01_filter("filter_king_white_u3", 3, ("thorough",), 7200, 16),
-        _c01_filter("filter_king_black_u3", 3, ("thorough",), 7200, 16),
-        _c01_filter("filter_pawn_white_u3", 3, ("thorough",), 7200, 16),
-        _c01_filter("filter_pawn_black_u3", 3, ("thorough",), 7200, 16),
+        _c01_filter("filter_pieces_white_u3", 3, ("thorough",), 7200, 6),
+        _c01_filter("filter_pieces_black_u3", 3, ("thorough",), 7200, 6),
+        _c01_filter("filter_king_white_u3", 3, ("thorough",), 7200, 6),
+        _c01_filter("filter_king_black_u3", 3, ("thorough",), 7200, 6),
+        _c01_filter("filter_pawn_white_u3", 3, ("thorough",), 7200, 6),
+        _c01_filter("filter_pawn_black_u3", 3, ("thorough",), 7200, 6),
         Inst("c01::lemma_legal_moves_are_candidates", sub="C01 glue", timeout=1800, mem_gb=5, functions=("(reference only: rules::legal_ref, rules::gen_pseudo)",),
              bounds="any legal position, any coordinates; no bound"),
         _c01_gen("gen_kk_white_sound", 1, 8, ('thorough',), 3600, 6, 8),
